@@ -17,7 +17,6 @@ import (
 	sdk "github.com/cosmos/cosmos-sdk/types"
 	"github.com/cosmos/cosmos-sdk/types/msgservice"
 	gogoproto "github.com/cosmos/gogoproto/proto"
-	protov2 "google.golang.org/protobuf/proto"
 	"google.golang.org/protobuf/reflect/protoreflect"
 	"google.golang.org/protobuf/reflect/protoregistry"
 
@@ -291,7 +290,7 @@ func msgSignersPart() mc.Part {
 					case gerr == nil && reflect.TypeOf(resolved) != gt:
 						c.add(fmt.Sprintf("C20/msg/registered-go-type-differs/%s", name), fmt.Sprintf("registry resolves %s to %T, gogoproto registers %s", url, resolved, gt), f.Path, string(name))
 					}
-					if !msgImpls[url] {
+					if err == nil && !msgImpls[url] {
 						c.add(fmt.Sprintf("C20/msg/not-an-sdk-msg/%s", name), fmt.Sprintf("%s is not listed as an implementation of %s", url, sdk.MsgInterfaceProtoName), f.Path, string(name))
 					}
 					// behaviour: the declared signer field is read as an address
@@ -394,5 +393,3 @@ func sameSigners(a, b [][]byte) bool {
 	}
 	return true
 }
-
-var _ = protov2.Marshal
